@@ -151,8 +151,16 @@ def run_case(case, ctx):
         ops = reads.ops_3d(sp.shape, sp.bs, rng, case['nops'], tracecount=sp.ntr)
     arr_ranges = [(sp.footer0 + j * sp.stride, sp.footer0 + j * sp.stride + sp.hlen) for j in range(len(sp.stored))]
     hdr_ops = []
+    strata_extra = set()
     for _ in range(4):
         hdr_ops.append(('gen_trace_header', (rng.randrange(sp.ntr),)))
+    if truth.get('dups') and regular and not sp.is2d:
+        # a trace at which an array shared by several fields holds 0 / a non-zero value
+        a73 = np.asarray(truth['arrays'][73])
+        for sel in (np.flatnonzero(a73 == 0), np.flatnonzero(a73 != 0)):
+            if len(sel):
+                hdr_ops.append(('gen_trace_header', (int(sel[rng.randrange(len(sel))]),)))
+                strata_extra.add('shared-array-value:%s' % ('zero' if a73[sel[0]] == 0 else 'nonzero'))
     for k in sp.stored[:3]:
         hdr_ops.append(('get_tracefield_values', (k,)))
     bad, ncalls = [], 0
@@ -162,6 +170,7 @@ def run_case(case, ctx):
                            else 'general'), 'rate:%s' % sp.rate}
     if gm is not None:
         strata.add('irregular')
+    strata |= strata_extra
 
     def open_reader(backend, preload):
         if backend == 'local':
@@ -277,7 +286,7 @@ def run_case(case, ctx):
 def finalize(tier, cases, results, counters, strata):
     reasons = []
     for s in ['layout:default', 'layout:zslice', 'layout:general', 'layout:2d', 'irregular', 'preload',
-              'backend:local', 'backend:blob']:
+              'backend:local', 'backend:blob', 'shared-array-value:zero', 'shared-array-value:nonzero']:
         if s not in strata:
             reasons.append('required stratum not hit: ' + s)
     if counters.get('range_reads', 0) == 0:
